@@ -7,6 +7,8 @@ import (
 	"fmt"
 	"strings"
 
+	parser "github.com/anz-bank/sysl/pkg/grammar"
+
 	"verifharness/common"
 )
 
@@ -23,6 +25,10 @@ type Line struct {
 	Mode int    // lexer mode at the start of the line
 	Decl bool   // a column-0 comment may be put before this line (default mode, line start is real)
 	Ins  bool   // inserted by a transformation
+	// TrailOK: blanks or a `#` comment may follow the last token of this line: the line starts and ends in the default
+	// mode (its line end is a NEWLINE token) and its last visible token is a structural default-mode token - not free
+	// text (TEXT after `|`, `return`, `#`; arguments after `<-`), where blanks and `#` are content
+	TrailOK bool
 }
 
 type Doc struct {
@@ -104,7 +110,35 @@ func NewDoc(text string, toks []tokInfo) *Doc {
 	for i := range d.Lines {
 		d.Lines[i].Decl = d.Lines[i].Real && d.Lines[i].Mode == modeDefault
 	}
+	lastVis := map[int]int{}
+	endsNL := map[int]bool{}
+	args := map[int]bool{} // the line switches to the ARGS mode (`<-`): what follows is free text up to the line end
+	for _, t := range toks {
+		if t.synthetic || t.eof {
+			continue
+		}
+		if !t.hidden {
+			lastVis[t.line-1] = t.ty
+		}
+		if t.ty == parser.SyslLexerDOT_ARROW || t.ty == parser.SyslLexerARROW_LEFT {
+			args[t.line-1] = true
+		}
+		if t.ty == parser.SyslLexerNEWLINE {
+			endsNL[t.line-1] = true
+		}
+	}
+	for i := range d.Lines {
+		ty, ok := lastVis[i]
+		d.Lines[i].TrailOK = ok && d.Lines[i].Decl && endsNL[i] && !args[i] && trailEnd[ty] && !strings.ContainsAny(d.Lines[i].Text, "\r\f")
+	}
 	return d
+}
+
+// token types after which blanks / a comment are layout
+var trailEnd = map[int]bool{
+	parser.SyslLexerCOLON: true, parser.SyslLexerSQ_CLOSE: true, parser.SyslLexerCLOSE_PAREN: true, parser.SyslLexerQSTRING: true,
+	parser.SyslLexerWHATEVER: true, parser.SyslLexerNativeDataTypes: true, parser.SyslLexerQN: true, parser.SyslLexerName: true,
+	parser.SyslLexerTEXT_LINE: true, parser.SyslLexerIMPORT_PATH: true, parser.SyslLexerDIGITS: true, parser.SyslLexerCURLY_CLOSE: true,
 }
 
 // Step is one layout transformation, fully explicit so that a replay re-applies it literally.
@@ -122,6 +156,14 @@ func (s Step) String() string {
 		return fmt.Sprintf("%s(%d)", s.Op, s.K)
 	case "tabify":
 		return fmt.Sprintf("tabify(%d lines)", len(s.At))
+	case "trail":
+		return fmt.Sprintf("trail(%d lines)", len(s.At))
+	case "eolcomment":
+		return fmt.Sprintf("eolcomment(%d lines)", len(s.At))
+	case "crlf", "lf":
+		return s.Op
+	case "eofws":
+		return fmt.Sprintf("eofws(%q)", strings.Join(s.Text, ""))
 	}
 	return fmt.Sprintf("insert(%d lines)", len(s.At))
 }
@@ -202,6 +244,57 @@ func (d *Doc) Apply(s Step) (*Doc, bool) {
 			ws := leadOf(l.Text)
 			l.Text = strings.ReplaceAll(ws, "\t", "    ") + l.Text[len(ws):]
 		}
+	case "trail", "eolcomment":
+		// blanks (trail) or blanks + `#...` (eolcomment) after the last token of a line
+		if len(s.At) != len(s.Text) {
+			return nil, false
+		}
+		for n, i := range s.At {
+			if i < 0 || i >= len(nd.Lines) || !nd.Lines[i].TrailOK {
+				return nil, false
+			}
+			t := s.Text[n]
+			ws := leadOf(t)
+			if ws == "" || strings.ContainsAny(t, "\n\r") || (s.Op == "trail" && ws != t) || (s.Op == "eolcomment" && !strings.HasPrefix(t[len(ws):], "#")) {
+				return nil, false
+			}
+			nd.Lines[i].Text += t
+			nd.Lines[i].TrailOK = false
+		}
+	case "crlf":
+		// every line end \n -> \r\n (texts without multi-line tokens and without \r)
+		for i := range nd.Lines {
+			if !nd.Lines[i].Real || strings.Contains(nd.Lines[i].Text, "\r") {
+				return nil, false
+			}
+		}
+		for i := range nd.Lines {
+			if i < len(nd.Lines)-1 || nd.FinalNL {
+				nd.Lines[i].Text += "\r"
+			}
+			nd.Lines[i].TrailOK = false
+		}
+	case "lf":
+		any := false
+		for i := range nd.Lines {
+			if !nd.Lines[i].Real {
+				return nil, false
+			}
+			if strings.HasSuffix(nd.Lines[i].Text, "\r") {
+				nd.Lines[i].Text = strings.TrimSuffix(nd.Lines[i].Text, "\r")
+				any = true
+			}
+		}
+		if !any {
+			return nil, false
+		}
+	case "eofws":
+		// an unterminated last line of blanks
+		if len(s.Text) != 1 || s.Text[0] == "" || leadOf(s.Text[0]) != s.Text[0] || !nd.FinalNL || len(nd.Lines) == 0 {
+			return nil, false
+		}
+		nd.Lines = append(nd.Lines, Line{Text: s.Text[0], Real: true, Ins: true, Mode: nd.Lines[len(nd.Lines)-1].Mode})
+		nd.FinalNL = false
 	case "insert":
 		if len(s.At) != len(s.Text) {
 			return nil, false
@@ -280,9 +373,39 @@ func layoutLine(r *common.Rng, col0 bool, maxw int) (string, string) {
 	return ws + "#" + c, "comment:indented"
 }
 
+var trailTexts = []string{" ", "  ", "\t", " \t ", "      "}
+var eolComments = []string{" # note", "  #", "\t# x <- y", " #", " # App:", "    # | text", " ## double"}
+
 func randStep(r *common.Rng, d *Doc, hist func(string)) (Step, bool) {
 	n := len(d.Lines)
-	switch r.Intn(8) {
+	switch r.Intn(12) {
+	case 8, 9:
+		// blanks / a comment after the last token of some of the lines where that is layout
+		op, texts := "trail", trailTexts
+		if r.Bool() {
+			op, texts = "eolcomment", eolComments
+		}
+		var at []int
+		var txt []string
+		all := r.Chance(1, 3)
+		for i, l := range d.Lines {
+			if l.TrailOK && (all || r.Chance(1, 3)) {
+				at, txt = append(at, i), append(txt, texts[r.Intn(len(texts))])
+			}
+		}
+		if len(at) == 0 {
+			return Step{}, false
+		}
+		return Step{Op: op, At: at, Text: txt}, true
+	case 10:
+		for _, l := range d.Lines {
+			if strings.HasSuffix(l.Text, "\r") {
+				return Step{Op: "lf"}, true
+			}
+		}
+		return Step{Op: "crlf"}, true
+	case 11:
+		return Step{Op: "eofws", Text: []string{trailTexts[r.Intn(len(trailTexts))]}}, true
 	case 0, 1:
 		return Step{Op: "scale", K: 2 + r.Intn(3)}, true
 	case 2:
@@ -327,6 +450,9 @@ func randStep(r *common.Rng, d *Doc, hist func(string)) (Step, bool) {
 			}
 			if b == 0 && d.FirstLineIndented() {
 				continue // judged on its own by startProbe (a class of its own, see main.go)
+			}
+			if b == n && viewAtEOF(d) {
+				continue // judged on its own by the view-end probe
 			}
 			if !r.Chance(1, dens) && !(n < 12 && r.Chance(1, 2)) {
 				continue
